@@ -27,7 +27,7 @@ EXHAUSTIVE_DOMAINS = {
     'int_lattice': 'Int(min,max) over {None,0,1,2}^2 x noneable x frozen(default=min-ish): all ordered pairs',
     'list_lattice': 'List(Int, min_size, max_size) over {0,1,2} x {None,0,1,2} x noneable: all ordered pairs',
     'vtuple_lattice': 'variable-length Tuple(Int, min_size, max_size) over {0,1,2} x {None,0,1,2,3}: all ordered pairs',
-    'dict_keys_lattice': 'Dict specs over named keys {none, a, a + defaulted b} x free-key field {none, Int, Str}: all ordered pairs',
+    'dict_keys_lattice': 'Dict specs over named keys {none, a, a + defaulted b, a + required u1 (a name the free-key pattern matches)} x free-key field {none, Int, Str}: all ordered pairs',
     'enum_vs_int': 'base Int(min,max) over {None,0,1,2}^2 x child Enum over every non-empty subset of {-1,0,1,2,3}',
     'sized_tuple_vs_fixed': 'base fixed Tuple of 2-3 Int positions with ranges from {none, >=0, <=1, 1..2} x child Tuple(Int, size=n)',
     'frozen_enum_base': 'base Enum([0,1,2]) frozen at i x child (Enum / Int / smaller Enum) frozen at j, all i, j',
@@ -165,7 +165,8 @@ def exhaustive(tier):
         yield {'ufc': {'frozen': fv, 'child': 'int_frozen', 'child_frozen': cv}}
   def dict_keys():
     named = [[], [['a', {'t': 'int', 'min': None, 'max': None}]],
-             [['a', {'t': 'int', 'min': None, 'max': None}], ['b', {'t': 'str', 'default': [0]}]]]
+             [['a', {'t': 'int', 'min': None, 'max': None}], ['b', {'t': 'str', 'default': [0]}]],
+             [['a', {'t': 'int', 'min': None, 'max': None}], ['u1', {'t': 'int', 'min': None, 'max': None}]]]
     dyns = [None, {'t': 'int', 'min': None, 'max': None}, {'t': 'str'}]
     descs = [{'t': 'dict', 'fields': copy.deepcopy(f), 'dyn': copy.deepcopy(dy)} for f in named for dy in dyns]
     dvals = [[w, c] for w in (0, 1) for c in ([0], [1], [2], [1, 1, 1], [2, 2, 2, 2], [0, 2, 1, 0], [0, 0, 2, 1], [0, 0, 1, 2], [1, 0, 2, 2])]
